@@ -143,7 +143,7 @@ def jobs_c17(tier, known):
     for kernel in ("poly", "tet"):
         for mode in MODES:
             for bu in BUSETS:
-                js.append(mesh_job("C17", kernel, "S20", cfgstr(mode, bu, 1), A_SWAP, 2 if tier == "quick" else 3, bcfg="fast", deadline=300 if tier == "quick" else 600, known=known))
+                js.append(mesh_job("C17", kernel, "S20", cfgstr(mode, bu, 1), A_SWAP, 2, bcfg="fast", deadline=300 if tier == "quick" else 600, known=known))
     return js
 
 
@@ -397,7 +397,7 @@ PROPS = {
                      "differential twin: the same entities deleted immediately on a copy of the state with deferred deletion switched off"]),
     "C13": mc(jobs_c13, B_STATE_Q + "; per state: copy-construct, assign to fresh / non-empty target with held handles, chain, self-assignment, assignment into all three kernel types, then 21 mutations of the copy and 21 of the source with the other side's full state compared after each",
               B_STATE_T),
-    "C05": mc(jobs_state("C05", heavy=("S2", "S4a", "S4b", "S5", "S10b", "S11", "S12", "S18a", "S19", "S7")), B_STATE_Q + "; every centre x 26 circulators x laps 1..3 x every step count", B_STATE_T),
+    "C05": mc(jobs_state("C05", heavy=("S2", "S4a", "S4b", "S5", "S10b", "S11", "S12", "S16", "S18a", "S19", "S7")), B_STATE_Q + "; every centre x 26 circulators x laps 1..3 x every step count", B_STATE_T),
     "C06": {"jobs": io_jobs("C06", 16, 16), "level": "exploration", "engine": "ovmio",
             "rule": "cases = (corpus mesh x property set) x {writer bytes decoded by the independent reference codec; round trip into every compatible kernel x topology check x incidences; every alternative encoding of the option lattice; OVM-ASCII round trip + second round trip; pending deletions x 4 through both writers; read_file by extension; type detection}; a case is non-trivial/distinct by its (operator, outcome) class",
             "technique": "bounded-exhaustive enumeration of encodings (finite option lattice of an independent reference OVMB codec) against the real reader/writer",
@@ -421,7 +421,7 @@ PROPS = {
     "C08": mc(jobs_c08, "(a) ALL 2^30 handle indices for the conversions, static and member forms; (b) " + B_STATE_Q + ": every live edge and face of every reachable state",
               "(a) all 2^30 indices; (b) " + B_STATE_T),
     "C09": mc(jobs_state("C09"), B_STATE_Q, B_STATE_T),
-    "C10": mc(jobs_state("C10", heavy=("S2", "S4a", "S4b", "S5", "S10b", "S11", "S12", "S18a", "S19", "S7")), B_STATE_Q + "; all ordered vertex pairs/triples(/4-tuples), all halfedge pairs, all (cell, ...) combinations per state", B_STATE_T),
+    "C10": mc(jobs_state("C10", heavy=("S2", "S4a", "S4b", "S5", "S10b", "S11", "S12", "S16", "S18a", "S19", "S7")), B_STATE_Q + "; all ordered vertex pairs/triples(/4-tuples), all halfedge pairs, all (cell, ...) combinations per state", B_STATE_T),
     "C11": mc(jobs_c11, "probe alphabet on every seed x 3 kernels x {deferred+fast, immediate} x vertex incidences {on, off}: add_edge over all ordered vertex pairs, add_face(list, check) over ALL halfedge tuples of length 0..3 (hex: 0..4) and add_cell(list, check) over ALL halfface tuples of length 0..4 (hex: 0..3) from a pool of 8 live handles; plus valid-argument construction histories depth 2 / 1",
               "tuples up to length 4 (faces) / 5 (cells), also after every single deletion and with all incidences off; construction histories depth 3 / 2 / 1",
               extra=["accept predicate: closed halfedge loop / every halfedge of the listed halffaces matched exactly once by its opposite (several disjoint closed surfaces are accepted, as by the code), plus the valence rules of the tet/hex kernels",
